@@ -311,6 +311,10 @@
 /* copies of (G_P,G_Q) / (G_Q,G_P) of d among the entries such a cursor has passed */
 #define IT_PASSED_PQ(it_, i_) ((bg_size)(i_) == (bg_size)G_P ? C_NQ((it_).p) : (bg_size)0)
 #define IT_PASSED_QP(it_, i_) ((bg_size)(i_) == (bg_size)G_Q ? (it_).p.nP : (bg_size)0)
+#define WMAT_PQ_(m, F) (G_P == G_Q ? F((m).rowP.vP) : F((m).rowP.vQ))
+#define WMAT_QP_(m, F) (G_P == G_Q ? F((m).rowP.vP) : F((m).rowQ.vP))
+#define WMAT_PQ(m) WMAT_PQ_(m, ID)
+#define WMAT_QP(m) WMAT_QP_(m, ID)
 /* x counted once, or twice on the diagonal when self-loops count twice */
 #define U_TWICE(x, twice) ((G_P == G_Q && (twice)) ? (x) + (x) : (x))
 /* ================= binary edge lists (C14, C15) ================= */
